@@ -103,7 +103,19 @@ def instantiate_branch_sees_through(fn: ast.FunctionDef, subj: str) -> bool:
                 # while isinstance(subj, Instantiate): subj = subj.simplify()
                 if any(isinstance(st, ast.Assign) and len(st.targets) == 1 and isinstance(st.targets[0], ast.Name)
                        and st.targets[0].id == subj and simp_of_subj(st.value) for st in node.body):
-                    return True
+                    # the stripped value only reaches the tests that FOLLOW the loop: a constructor test of the subject placed
+                    # before it was answered for the notation node and is not asked again for the expansion
+                    before = False
+                    for x in ast.walk(fn):
+                        if isinstance(x, ast.Call) and isinstance(x.func, ast.Name) and x.func.id == 'isinstance' and len(x.args) == 2 \
+                                and isinstance(x.args[0], ast.Name) and x.args[0].id == subj and 'Instantiate' not in ast.unparse(x.args[1]) \
+                                and (x.lineno, x.col_offset) < (node.lineno, node.col_offset) and not _inside_assert(fn, x):
+                            before = True
+                        if isinstance(x, ast.match_case) and isinstance(x.pattern, (ast.MatchClass, ast.MatchOr)) \
+                                and x.pattern.lineno < node.lineno and 'Instantiate' not in ast.unparse(x.pattern):
+                            before = True
+                    if not before:
+                        return True
         if isinstance(node, ast.If):
             t = node.test
             if isinstance(t, ast.Call) and isinstance(t.func, ast.Name) and t.func.id == 'isinstance' and len(t.args) == 2 \
